@@ -58,7 +58,7 @@ RCeil(a) == -((-a[1]) \div a[2])          \* ceiling of a rational (\div rounds 
 
 \* q-th roots of the error ratios the adversary may present; "zero" is r = 0, "fail" a Newton failure
 Roots == IF Grid = 1
-         THEN {Q(1, 8), Q(1, 2), One, R(2), R(8)}
+         THEN {Q(1, 8), Q(1, 2), One, Q(17, 16), R(2), R(8)}
          ELSE {Q(1, 64), Q(1, 8), Q(1, 2), One, Q(17, 16), R(2), R(8), R(64)}
 Alphabet == {[k |-> "r", s |-> s] : s \in Roots} \cup {[k |-> "zero", s |-> Zero], [k |-> "fail", s |-> Zero]}
 
